@@ -6,7 +6,7 @@ import ast
 import re
 
 from .. import sqlt
-from ..execmodel import ExecHooks, R, make_session
+from ..execmodel import ExecHooks, R, make_session, sget, sset, sowner, sowners
 from ..interp import explore
 from ..model import norm
 from ..values import Const, Obj, Str, Sym, tagof
@@ -51,7 +51,7 @@ def rule_describable(ctx):
             if tr.path.outcome != "return":
                 continue
             n += 1
-            last_sql = tr.cur.attrs.get(R().last_sql)
+            last_sql = sget(tr.cur, "last_sql")
             q = is_query(last_sql)
             ctx.ob("C06.b", f"{kind}: recorded statement is a single query", q, site_loc(prog, "cursor", site), text_of(last_sql)[:80])
             if q is False:
@@ -97,7 +97,7 @@ def rule_describable(ctx):
     for p, cur in zip(explore(prog, fac, run2, max_paths=16), sessions):
         if p.outcome != "return":
             continue
-        last_sql = cur.attrs.get(R().last_sql)
+        last_sql = sget(cur, "last_sql")
         q = is_query(last_sql)
         ctx.ob("C06.b", "SELECT with seed side-channel: recorded statement is a single query", q,
                site_loc(prog, "cursor", site), text_of(last_sql)[:80])
@@ -122,10 +122,10 @@ def rule_pure(ctx):
 
     def run(I):
         duck, conn, cur = make_session()
-        cur.attrs[R().last_sql] = Sym("LAST_SQL", typ="str", truthy=True)
-        cur.attrs[R().table] = Obj("pending_table", kind="arrow")
-        cur.attrs[R().index] = Sym("pending_index", typ="int")
-        cur.attrs[R().last_params] = Sym("LAST_PARAMS")
+        sset(cur, "last_sql", Sym("LAST_SQL", typ="str", truthy=True))
+        sset(cur, "table", Obj("pending_table", kind="arrow"))
+        sset(cur, "index", Sym("pending_index", typ="int"))
+        sset(cur, "last_params", Sym("LAST_PARAMS"))
         sessions.append((conn, cur))
         return I.getattr(cur, "description")
 
@@ -135,7 +135,7 @@ def rule_pure(ctx):
     n = 0
     for p, (conn, cur), h in zip(paths, sessions, hooks):
         n += 1
-        bad = [e for e in p.effects if e[0] == "store" and e[1] in (cur, conn)]
+        bad = [e for e in p.effects if e[0] == "store" and any(e[1] is o_ for o_ in (*sowners(cur), conn))]
         ok = not bad
         ctx.ob("C06.c", "description getter stores nothing on the cursor or the connection", ok, loc)
         for e in bad:
@@ -318,7 +318,7 @@ def rule_type_domain(ctx):
         for tr in traces(prog, kind):
             if tr.path.outcome != "return":
                 continue
-            last_sql = tr.cur.attrs.get(R().last_sql)
+            last_sql = sget(tr.cur, "last_sql")
             k, root = sql_root(last_sql)
             src = None
             if k == "text":
@@ -530,7 +530,7 @@ def rule_recorded_statement_still_valid(ctx):
     for p, h, cur in zip(explore(prog, fac, run, max_paths=64), hooks, sessions):
         if not h.parsed or p.outcome != "return":
             continue
-        last = cur.attrs.get(r.last_sql)
+        last = sget(cur, "last_sql")
         k0, root0 = sql_root(last) if last is not None else ("?", None)
         src0 = getattr(root0, "parsed_from", None) if k0 == "node" else None
         last_txt = " ".join((text_of(src0) if src0 is not None else text_of(last)).split()) if last is not None else ""
